@@ -10,13 +10,18 @@ Inductive query : Set :=
   | QSpec (E : list sdef).                     (* the SysV specification (validated against clang) *)
 
 Inductive obs : Set :=
-  | OLaid (offs : list (option (list N)))      (* per struct in declaration order: field offsets *)
+  | OLaid (offs : list (option (list N)))      (* per struct in declaration order: field offsets ... *)
+          (sa : list (option (N * N)))         (* ... and the (size, align) the toolchain reports for it
+                                                  (print::struct_size_align, the `[size=, align=]` line) *)
+  | OSpec (l : list (option (list N)))         (* specification: offsets ++ [size; align] *)
   | OSizeAlign (s a : N)
   | ODiag                                      (* by-value recursion diagnosed (either message) *)
   | OUnresolved
   | OTooLarge                                  (* LayoutError::TooLarge *)
   | OOverflow                                  (* arithmetic-overflow panic: the model never produces it *)
   | ODirty                                     (* rejected, but offsets were written: never produced either *)
+  | OPrintPanic                                (* laid out, but printing the program panics: never produced *)
+  | OTypeMismatch                              (* source path: a lowered field type is not the declared one *)
   | ONeedsContext
   | OOther.
 
@@ -37,9 +42,11 @@ Definition spec_obs (E : list sdef) : list (option (list N)) :=
 
 Definition run (q : query) : obs :=
   match q with
-  | QCompute E => match compute_layouts E with Ok (offs, _) => OLaid offs | Fail e => obs_of_err e end
+  | QCompute E => match compute_layouts E with
+                  | Ok (offs, m) => OLaid offs (map (fun d => rlookup m (sname d)) E)
+                  | Fail e => obs_of_err e end
   | QLayoutOf t => match layout_of t with Ok (s, a) => OSizeAlign s a | Fail e => obs_of_err e end
-  | QSpec E => OLaid (spec_obs E)
+  | QSpec E => OSpec (spec_obs E)
   end.
 
 Definition oeqb {A} (f : A -> A -> bool) (a b : option A) : bool :=
@@ -47,9 +54,12 @@ Definition oeqb {A} (f : A -> A -> bool) (a b : option A) : bool :=
 
 Definition obs_eqb (a b : obs) : bool :=
   match a, b with
-  | OLaid x, OLaid y => list_eqb (oeqb (list_eqb N.eqb)) x y
+  | OLaid x sx, OLaid y sy => list_eqb (oeqb (list_eqb N.eqb)) x y
+                              && list_eqb (oeqb (fun a b => (fst a =? fst b) && (snd a =? snd b))) sx sy
+  | OSpec x, OSpec y => list_eqb (oeqb (list_eqb N.eqb)) x y
   | OSizeAlign s a, OSizeAlign s' a' => (s =? s') && (a =? a')
   | ODiag, ODiag | OUnresolved, OUnresolved | OOverflow, OOverflow | OTooLarge, OTooLarge | ODirty, ODirty
+  | OPrintPanic, OPrintPanic | OTypeMismatch, OTypeMismatch
   | ONeedsContext, ONeedsContext | OOther, OOther => true
   | _, _ => false
   end.
